@@ -18,13 +18,15 @@ import (
 	"path/filepath"
 	"sort"
 	"strings"
+	"syscall"
 
 	"golang.zx2c4.com/wireguard/tun"
 )
 
 type Case struct {
 	Gen string `json:"gen"`
-	// Type "" = a virtio-net read; "ck" = checksumNoFold/checksum(data, init);
+	// Type "" = a virtio-net read handed to handleVirtioRead; "rd" = the same through the real
+	// NativeTun.Read; "ck" = checksumNoFold/checksum(data, init);
 	// "ph" = pseudoHeaderChecksumNoFold(proto, src, dst, tlen)
 	Type      string `json:"type,omitempty"`
 	Init      uint64 `json:"init,string,omitempty"`
@@ -148,7 +150,13 @@ func runImpl(c *Case) {
 				c.PanicMsg = fmt.Sprint(r)
 			}
 		}()
-		n, err := tun.VerifHandleVirtioRead(raw, bufs, sizes, c.Offset)
+		var n int
+		var err error
+		if c.Type == "rd" {
+			n, err = readThroughTun(raw, bufs, sizes, c.Offset)
+		} else {
+			n, err = tun.VerifHandleVirtioRead(raw, bufs, sizes, c.Offset)
+		}
 		c.N = n
 		c.Err = classify(err)
 		if err != nil {
@@ -675,44 +683,171 @@ func scenarioUnitTests(r *rand.Rand) []Case {
 	return res
 }
 
-// F6: UDP segments/packets whose computed checksum is 0 (must go out as 0xffff).
-// One dedicated scenario (three members: USO v4, USO v6, NONE+NEEDS_CSUM v4).
+// F6: segments/packets whose computed checksum is exactly 0. The complete family: gsoSplit
+// USO v4/v6 and TSO v4/v6, gsoNoneChecksum (GSO_NONE + NEEDS_CSUM) UDP v4/v6 and TCP v4/v6, the
+// latter with an even and an odd payload length. UDP must go out as 0xffff (specification
+// clauses 12 / 34); for TCP both values verify and the model fixes which one the code stores.
 func scenarioUDPZero(r *rand.Rand) []Case {
 	var res []Case
-	mk := func(v6, none bool) {
-		s := superSpec{v6: v6, tcp: false, ihl: 20, thl: 8, gso: 100, paylen: 250, vflags: needsCsum, id: 7}
+	mk := func(v6, none, tcp bool, paylen int) {
+		s := superSpec{v6: v6, tcp: tcp, ihl: 20, thl: 8, gso: 100, paylen: 250, vflags: needsCsum, id: 7, flags: 0x18, seq: 0xffffff00}
+		co := 6
+		if tcp {
+			s.thl, co = 20, 16
+		}
 		s.hdrLenHint = uint16(s.hl())
-		c := Case{Gen: "f6-udp-zero-checksum", NBufs: 8, Offset: 16, Room: 65535}
+		c := Case{Gen: "f6-zero-checksum", NBufs: 8, Offset: 16, Room: 65535}
 		seg := 1
 		if none {
-			c.Raw = buildPartial(r, v6, false, 20, 8, 120)
+			c.Raw = buildPartial(r, v6, tcp, 20, s.thl, paylen)
 			seg = 0
-			c.Info = map[string]any{"kind": "none-csum", "nseg": 1, "f6": true}
+			c.Info = map[string]any{"kind": "none-csum", "nseg": 1, "f6": true, "v6": v6, "tcp": tcp}
 		} else {
 			c.Raw = buildSuper(r, s)
 			c.Info = superInfo(s, c.Gen)
 			c.Info["f6"] = true
 		}
 		cs := s.cs()
-		at := 10 + s.hl() + seg*s.gso // first payload word of the chosen segment (even offset in the datagram)
+		at := 10 + s.hl() + seg*s.gso // first payload word of the chosen segment (even offset in the transport segment)
 		runImpl(&c)
-		stored := binary.BigEndian.Uint16(c.Segs[seg][cs+6:])
+		stored := binary.BigEndian.Uint16(c.Segs[seg][cs+co:])
 		f := uint32(^stored) // folded sum including the word at `at`
 		w := uint32(binary.BigEndian.Uint16(c.Raw[at:]))
 		w2 := (w + 2*65535 - f) % 65535
 		binary.BigEndian.PutUint16(c.Raw[at:], uint16(w2))
 		runImpl(&c)
-		// the computed checksum is now zero: the field shows 0x0000 (before repair 8d6518b) or
-		// 0xffff (after); anything else means the scenario was not constructed
-		if f := binary.BigEndian.Uint16(c.Segs[seg][cs+6:]); f != 0 && f != 0xffff {
-			panic(fmt.Sprintf("f6 scenario: checksum field %#04x, expected a computed zero", f))
+		// the computed checksum is now zero: the field shows 0xffff (mangled) or 0x0000 (not
+		// mangled: judged by the specification / the model); anything else means the scenario
+		// was not constructed
+		fld := binary.BigEndian.Uint16(c.Segs[seg][cs+co:])
+		if fld != 0 && fld != 0xffff {
+			panic(fmt.Sprintf("f6 scenario: checksum field %#04x, expected a computed zero", fld))
 		}
-		c.Info["f6_field"] = binary.BigEndian.Uint16(c.Segs[seg][cs+6:])
+		c.Info["f6_field"] = fld
 		res = append(res, c)
 	}
-	mk(false, false)
-	mk(true, false)
-	mk(false, true)
+	for _, v6 := range []bool{false, true} {
+		mk(v6, false, false, 0) // USO
+		mk(v6, false, true, 0)  // TSO
+		mk(v6, true, false, 120)
+		mk(v6, true, false, 3)
+		mk(v6, true, true, 120)
+		mk(v6, true, true, 101)
+	}
+	return res
+}
+
+// ---------------------------------------------------------------------------
+// The glue above handleVirtioRead: the real NativeTun.Read (vnet-hdr mode) fed through a
+// SOCK_DGRAM socketpair standing in for /dev/net/tun (one packet per read(), silently cut to
+// the reader's buffer). The expected behaviour is handle_virtio_read of exactly the bytes
+// written, for every length up to 10 + 65535.
+
+type readTun struct {
+	dev  *tun.NativeTun
+	wfd  int
+	file *os.File
+}
+
+var rtun *readTun
+
+func getReadTun() *readTun {
+	if rtun != nil {
+		return rtun
+	}
+	fds, err := syscall.Socketpair(syscall.AF_UNIX, syscall.SOCK_DGRAM, 0)
+	if err != nil {
+		panic(fmt.Sprintf("socketpair: %v", err))
+	}
+	for _, fd := range fds {
+		syscall.SetsockoptInt(fd, syscall.SOL_SOCKET, syscall.SO_SNDBUF, 1<<20)
+		syscall.SetsockoptInt(fd, syscall.SOL_SOCKET, syscall.SO_RCVBUF, 1<<20)
+	}
+	f := os.NewFile(uintptr(fds[0]), "faketun")
+	rtun = &readTun{dev: tun.VerifNewReadTun(f), wfd: fds[1], file: f}
+	return rtun
+}
+
+func readThroughTun(raw []byte, bufs [][]byte, sizes []int, offset int) (int, error) {
+	rt := getReadTun()
+	n, err := syscall.Write(rt.wfd, raw)
+	if err != nil || n != len(raw) {
+		panic(fmt.Sprintf("write to the stand-in tun fd: n=%d err=%v", n, err))
+	}
+	return rt.dev.Read(bufs, sizes, offset)
+}
+
+// maximum-size and ordinary well-formed reads through NativeTun.Read
+func readCases(r *rand.Rand, thorough bool) []Case {
+	var res []Case
+	add := func(s superSpec, gen string) {
+		c := Case{Gen: gen, Type: "rd", Raw: buildSuper(r, s), NBufs: nsegOf(s) + 1, Offset: offsets[r.Intn(len(offsets))]}
+		if c.NBufs > 128 {
+			c.NBufs = 128
+		}
+		c.Room = len(c.Raw) - 10 + 2 + r.Intn(50)
+		c.Info = superInfo(s, gen)
+		c.Info["iplen"] = len(c.Raw) - 10
+		runImpl(&c)
+		res = append(res, c)
+	}
+	max := func(v6, tcp bool, iplen, gso int) {
+		s := superSpec{v6: v6, tcp: tcp, ihl: 20, thl: 8, gso: gso, seq: 0xffff8000, flags: 0x18, id: 65530, vflags: needsCsum}
+		if tcp {
+			s.thl = 20
+		}
+		s.paylen = iplen - s.hl()
+		s.hdrLenHint = uint16(s.hl())
+		add(s, "read-max")
+	}
+	type k struct {
+		v6, tcp    bool
+		iplen, gso int
+	}
+	ks := []k{{false, false, 65535, 1400}, {true, false, 65535, 1400}, {false, true, 65535, 1448}, {true, true, 65535, 65495},
+		{false, false, 65526, 1472}, {true, false, 65531, 1200}, {false, true, 65530, 8948}, {true, true, 65527, 1440}}
+	if thorough {
+		ks = nil
+		for _, l := range []int{65500, 65524, 65525, 65526, 65527, 65530, 65534, 65535} {
+			for i, g := range []int{1400, 1448, 8948, 65495} {
+				ks = append(ks, k{i%2 == 0, i < 2, l, g}, k{i%2 == 1, i >= 2, l, g})
+			}
+		}
+	}
+	for _, x := range ks {
+		max(x.v6, x.tcp, x.iplen, x.gso)
+	}
+	n := 24
+	if thorough {
+		n = 300
+	}
+	for i := 0; i < n; i++ {
+		s := randSuper(r)
+		if s.paylen > 6000 {
+			s.paylen = r.Intn(6000)
+		}
+		add(s, "read-ordinary")
+	}
+	// checksum completion and pass-through through Read
+	for i := 0; i < n/3; i++ {
+		v6, tcp := r.Intn(2) == 0, r.Intn(2) == 0
+		thl := 8
+		if tcp {
+			thl = 20
+		}
+		c := Case{Gen: "read-none", Type: "rd", NBufs: 1 + r.Intn(3), Offset: offsets[r.Intn(len(offsets))]}
+		c.Raw = buildPartial(r, v6, tcp, 20, thl, r.Intn(1500))
+		if r.Intn(4) == 0 {
+			c.Raw[0] = 0
+		}
+		c.Room = roomFor(r, len(c.Raw))
+		c.Info = map[string]any{"kind": "none-csum", "nseg": 1}
+		runImpl(&c)
+		if !tcp && c.Raw[0]&needsCsum != 0 && udpZeroIn(&c, 20+20*map[bool]int{false: 0, true: 1}[v6]) {
+			continue
+		}
+		res = append(res, c)
+	}
 	return res
 }
 
@@ -1027,6 +1162,7 @@ func main() {
 		cases = append(cases, scenarioUnitTests(r)...)
 		cases = append(cases, scenarioCarry(r)...)
 		cases = append(cases, checksumCases(r, *thorough)...)
+		cases = append(cases, readCases(r, *thorough)...)
 		if !*noF6 {
 			cases = append(cases, scenarioUDPZero(r)...)
 		}
